@@ -291,9 +291,9 @@ func suiteConcurrent(c *Ctx) error {
 		if err != nil {
 			return err
 		}
-		budget := 4 * time.Second
+		budget := 10 * time.Second
 		if c.Tier == "thorough" {
-			budget = 40 * time.Second
+			budget = 60 * time.Second
 		}
 		stop := make(chan struct{})
 		var wg sync.WaitGroup
@@ -327,14 +327,34 @@ func suiteConcurrent(c *Ctx) error {
 				}
 			}()
 		}
+		// the writer reads its own writes: once AddSignature(FLIP@beta) has returned - two commits in quick
+		// succession, scanners in flight all the while - the store holds beta, so the probe of beta must
+		// be answered by beta and the probe of alpha by nothing, whatever view the scanners share
+		var stale []string
 		deadline := time.Now().Add(budget)
 		for time.Now().Before(deadline) {
 			ps.AddSignature(&sA)
 			ps.AddSignature(&sB)
 			flips.Add(2)
+			if len(stale) < 5 {
+				if a, err := ps.ScanTopologyExact(tB, "f"); err == nil && (a == nil || a.SignatureName != "beta") {
+					stale = append(stale, fmt.Sprintf("after AddSignature(FLIP@beta) returned (flip %d), the exact scan with beta's probe is answered by %v", flips.Load(), a))
+				}
+				if as, err := ps.ScanTopology(tB, "f"); err == nil && canonAlertsN(as) != "" && !strings.Contains(canonAlertsN(as), "beta") && len(as) > 0 && as[0].SignatureName != "beta" {
+					stale = append(stale, fmt.Sprintf("after AddSignature(FLIP@beta) returned (flip %d), the full scan with beta's probe reports %q", flips.Load(), as[0].SignatureName))
+				}
+			}
 		}
 		close(stop)
 		wg.Wait()
+		// and once everything is quiet
+		if a, err := ps.ScanTopologyExact(tB, "f"); err == nil && (a == nil || a.SignatureName != "beta") && len(stale) < 5 {
+			stale = append(stale, fmt.Sprintf("with all goroutines stopped, the exact scan with beta's probe is answered by %v", a))
+		}
+		if len(stale) > 0 {
+			c.Violate("C11", "C11/scan-after-write-returned-misses-it", "a scan that STARTED after the write had returned does not see it: "+stale[0],
+				map[string]interface{}{"observations": stale, "version_flips": flips.Load(), "how": "one writer alternates AddSignature(FLIP@alpha) / AddSignature(FLIP@beta) on one handle while GOMAXPROCS goroutines scan; after every second write the writer scans itself"})
+		}
 		ps.Close()
 		c.Res.Evaluations += int(scans.Load())
 		c.Res.Nontrivial += int(flips.Load())
